@@ -398,3 +398,60 @@ Proof.
   intros Hcwd Hr He. unfold abs. rewrite Hr. cbn [rooted]. rewrite clean_trailing_slash by assumption.
   now apply clean_under.
 Qed.
+
+(* the cleaned form of x/e when e has no ".." segment *)
+Lemma clean_app_form x e : rooted x = true -> has_dd e = false ->
+  clean x = 47 :: join47 (rev (cstack true x)) /\
+  clean (x ++ 47 :: e) = 47 :: join47 (rev (cstack true x) ++ filter keeps (split47 e)).
+Proof.
+  intros Hx He. unfold clean. rewrite (rooted_app x (47 :: e) Hx), Hx. split; [reflexivity|].
+  rewrite cstack_app. rewrite has_dd_split in He. rewrite cstack_no_dd by exact He.
+  now rewrite rev_app_distr, rev_involutive.
+Qed.
+
+(* byte predicates survive splitting, cleaning and joining *)
+Section BytePred.
+  Variable Q : Z -> Prop.
+
+  Lemma split47_forall s : Forall Q s -> Forall (Forall Q) (split47 s).
+  Proof.
+    intros H. induction H as [|c r Hc Hr IH]; [repeat constructor|]. cbn [split47].
+    destruct (c =? 47); [constructor; [constructor|exact IH]|].
+    destruct (split47 r) as [|g gs]; [repeat constructor; assumption|].
+    inversion IH; subst. constructor; [constructor; assumption|assumption].
+  Qed.
+
+  Lemma cstep_forall root st g : Forall (Forall Q) st -> Forall Q g -> Forall (Forall Q) (cstep root st g).
+  Proof.
+    intros Hst Hg. unfold cstep. destruct (is_nil g || is_dot g); [exact Hst|].
+    destruct (is_dd g).
+    - destruct st as [|top rest]; [destruct root; repeat constructor; assumption|].
+      destruct (is_dd top); [constructor; assumption|now inversion Hst].
+    - constructor; assumption.
+  Qed.
+
+  Lemma cfold_forall root segs : Forall (Forall Q) segs -> forall st, Forall (Forall Q) st ->
+    Forall (Forall Q) (fold_left (cstep root) segs st).
+  Proof.
+    intros H. induction H as [|g segs Hg Hs IH]; intros st Hst; [exact Hst|].
+    cbn [fold_left]. apply IH. now apply cstep_forall.
+  Qed.
+
+  Lemma join47_forall segs : Q 47 -> Forall (Forall Q) segs -> Forall Q (join47 segs).
+  Proof.
+    intros H47 H. induction H as [|g r Hg Hr IH]; [constructor|].
+    destruct r as [|g' r']; [exact Hg|]. rewrite join47_cons by discriminate.
+    apply Forall_app. split; [exact Hg|]. constructor; assumption.
+  Qed.
+
+  Lemma clean_forall x : Q 47 -> Q 46 -> Forall Q x -> Forall Q (clean x).
+  Proof.
+    intros H47 H46 Hx. unfold clean.
+    assert (Hst : Forall (Forall Q) (cstack (rooted x) x)).
+    { unfold cstack. apply cfold_forall; [now apply split47_forall|constructor]. }
+    assert (Hj : Forall Q (join47 (rev (cstack (rooted x) x)))).
+    { apply join47_forall; [exact H47|]. now apply Forall_rev. }
+    destruct (rooted x); [constructor; assumption|].
+    destruct (cstack false x); [repeat constructor; assumption|exact Hj].
+  Qed.
+End BytePred.
